@@ -201,3 +201,41 @@ PLAN["C06"] = {
     "post": c06_post,
     "runs": runs([dict(MON16, budget=200)], [dict(MON16, budget=1200)]),
 }
+
+CONE_ASSUME = BASE_ASSUME + PSD_ASSUME + ["cone objects are driven through the `verif` re-exports of the crate's own cone types and traits"]
+
+PLAN["C10"] = {
+    "rule": "solver construction only (no solve): planted problems and a scaling-torture family (rows/columns over up to 30 decades, zero rows/columns, single 1e25 entry, empty P, P full or "
+            "triu, q=0) x equilibrate_max_iter in {0..20} x (min,max) scaling bounds; oracle on the public solver.data: d,e,c finite>0, dinv*d=1, pattern unchanged, every stored entry = "
+            "c d_i P_ij d_j / e_i A_ij d_j / c d_j q_j / e_i min(b_i,bound) to (8+4*iters) ulp, all factors within [min,max] (4u), zero columns d=1 and zero scalar-cone rows e=1 exactly, "
+            "e uniform inside non-scalar cones (8u), disabled => data bitwise untouched; non-trivial = distinct (problem, settings)",
+    "assumptions": BASE_ASSUME + PSD_ASSUME,
+    "min_nontrivial": 100,
+    "runs": runs([dict(MON16, budget=120), {"flavour": "miri", "shards": 8, "budget": 200, "timeout": 900}],
+                 [dict(MON16, budget=600), {"flavour": "asan", "shards": 16, "scale": 0.2, "budget": 600}, {"flavour": "miri", "shards": 16, "budget": 600, "timeout": 2400}]),
+}
+
+PLAN["C13"] = {
+    "rule": "cone objects (NN dim 1..30, SOC dim 2..40 in both dense and sparse-expanded representations, PSD order 1..8 through refblas) at interior (s,z) with independent magnitudes "
+            "1e-6..1e6 and relative boundary distance 1 .. 1e-8: Wz=W^-T s, (W'W)z=s, W/Winv mutually inverse in both shapes with alpha/beta semantics, <Wx,y>=<x,W'y>, mul_Hs=W'W, "
+            "affine_ds=lambda o lambda, circ_op = Jordan product by definition, lambda o (lambda\\v)=v, y o (y\\z)=z, combined_ds_shift = Winv ds o W dz - sigma mu e, "
+            "lambda o W^-T(ds-offset)=ds, KKT block (diagonal / packed dense / D+eta^2(uu'-vv')) = mul_Hs on unit vectors, identity scaling after an update; tolerance 1e-12*cond(s)cond(z); "
+            "non-trivial = distinct point",
+    "assumptions": CONE_ASSUME,
+    "min_nontrivial": 1000,
+    "runs": runs([dict(MON16, budget=120), {"flavour": "miri", "shards": 8, "budget": 200, "timeout": 900}],
+                 [dict(MON16, budget=600), {"flavour": "asan", "shards": 16, "scale": 0.1, "budget": 600}, {"flavour": "miri", "shards": 16, "budget": 600, "timeout": 2400}]),
+}
+
+PLAN["C15"] = {
+    "rule": "step_length of every cone kind (NN, SOC, PSD with the scaling of the same (s,z), Exp, Pow, GenPow) and of composite cones at interior points (boundary distance down to 1e-8) "
+            "with random / inward / outward / through-apex / tangent / coordinate / zero / exactly-on-boundary-ray directions (all SOC quadratic branches counted), alpha_max in {1,.99,.5,1e-3}, "
+            "backtracking step in {.5,.8,.95}: returned alpha in [0,alpha_max]; stepped point inside the cone by the harness predicate (allowance 1e-12+256u/rel.margin(x)); symmetric cones: "
+            "alpha >= (1-1e-6) x exact boundary distance found by bisection on the harness predicate; nonsymmetric: alpha on the grid alpha_max*step^k and the previous trial outside, zero only "
+            "when the grid falls below min_terminate_step_length; composite: safe for all cones and within one backtracking factor of the exact distance over all cones; margins = (min, positive "
+            "sum) of the oracle spectrum; symmetric_initialization of arbitrary vectors lands strictly inside (zero cone: s=0, z untouched), tau=kappa=1; unit shift moves the margin by the shift",
+    "assumptions": CONE_ASSUME + ["the composite is judged on the property's statement (safe, <= max, within one backtracking factor), not on the order in which cones are visited"],
+    "min_nontrivial": 1000,
+    "runs": runs([dict(MON16, budget=150), {"flavour": "miri", "shards": 8, "budget": 200, "timeout": 900}],
+                 [dict(MON16, budget=900), {"flavour": "asan", "shards": 16, "scale": 0.1, "budget": 600}, {"flavour": "miri", "shards": 16, "budget": 600, "timeout": 2400}]),
+}
